@@ -381,3 +381,22 @@ package linker
 // still point to, so an extension must go to a copy.
 //@ flow condition-chain-extended-on-a-copy C12: func=(*linkerContext).findImportedFilesInCSSOrder ; in=linker ; site=builtin append ; when-arg=0:*Conditions* ; scenario=sibling_conditional_imports_share_chain ; arg-not-alias=0:wrappingConditions
 //@ flow condition-records-extended-on-a-copy C12: func=(*linkerContext).findImportedFilesInCSSOrder ; in=linker ; site=call CloneWithImportRecords ; scenario=sibling_conditional_imports_share_chain ; arg-not-alias=2:wrappingImportRecords
+
+// C07 ("a mapping's source is the file the code came from"): sources[] gets ONE slot for a file without an input source
+// map and len(sm.Sources) slots for a file with one, and every later file's index is the number of slots handed out so
+// far. So the running index advances by exactly one only on the "no nested map" side.
+//@ guarded one-sources-slot-only-without-a-nested-map C07: func=(*linkerContext).generateSourceMapForChunk ; in=linker ; site=binop phi:nextSourcesIndex+1 ; scenario=nested_map_sources_index_drift ; require=true:*.InputFile.InputSourceMap==nil
+// The running name index is shifted by the names joined so far only for a chunk that HAS names; a chunk whose
+// mappings carry no name leaves the running index where it was (otherwise every later name is off by that amount).
+//@ guarded name-index-shift-only-for-chunks-with-names C07: func=(*linkerContext).generateSourceMapForChunk ; in=linker ; site=binop *OriginalName+phi:totalQuotedNameLen ; scenario=nameless_chunk_name_index_drift ; require=true:call IsValid(*FirstNameOffset)
+// ... and what is restored for a nameless chunk is the running index as it was BEFORE this chunk's end state replaced it.
+//@ flow nameless-chunk-restores-the-previous-name-index C07: func=(*linkerContext).generateSourceMapForChunk ; in=linker ; site=store SourceMapState.OriginalName ; when=prevEndState.OriginalName ; scenario=nameless_chunk_name_index_drift ; value-read-before-overwrite=1
+
+// C19 ("outputs[*].imports lists the imports that are in the output"): every import path printed into a chunk is
+// reported, whichever file printed it; nothing but "is there anything" and the first-element comma may stand between
+// the per-file import metadata and the chunk's "imports" array.
+//@ guarded every-printed-import-is-reported C19: func=(*linkerContext).generateChunkJS ; in=linker ; site=call AddString ; when-arg=1:*JSONMetadataImports* ; allow-only=true:phi:rangeindex+1<call len(*) && false:phi:rangeindex+1<call len(*) && true:c.options.NeedsMetafile
+// C18 ("a [hash] covers everything the file's bytes depend on"): the final hash of a chunk folds in the isolated hash
+// of EVERY chunk reachable through cross-chunk imports, static or dynamic, at any depth (the import paths of all of
+// them are substituted into the bytes of the chunks on the way). Only "already visited" may cut the walk.
+//@ guarded hash-walk-follows-every-cross-chunk-import C18: func=(*linkerContext).appendIsolatedHashesForImportedChunks ; in=linker ; site=call appendIsolatedHashesForImportedChunks ; control=1 ; allow-only=true:phi:rangeindex+1<call len(*crossChunkImports) && false:visited[chunkIndex]==visitedKey
